@@ -25,7 +25,9 @@ def gen_map(rng, depth_dir, big=False):
     for _ in range(n):
         k = rng.random()
         if k < 0.2:
-            txt = rng.choice(["Welcome to the map", "", "   indented text  ", "1looks like a link but no tab", "i info", "-----"])
+            txt = rng.choice(["Welcome to the map", "", "   indented text  ", "1looks like a link but no tab", "i info", "-----",
+                              # the classic fully specified info and error lines (port 0 written out)
+                              "iA fully specified info line\tfake\t(NULL)\t0", "3An error line\t\terror.host\t0"])
             lines.append(txt)
         else:
             t = rng.choice("01579gIhis")
@@ -41,9 +43,9 @@ def gen_map(rng, depth_dir, big=False):
             elif form == 2:    # relative (some look like URLs, fragments or queries: they are file names)
                 lines.append(f"{t}{desc}\t{rng.choice(LOCAL + ['Re:answer.txt', 'C#', 'what-now?', 'a//b', 'x y', 'mailto:me'])}")
             elif form == 3:    # remote with host and port
-                lines.append(f"{t}{desc}\t{rng.choice(['/', '/x y', '', 'rel'])}\t{rng.choice(['example.org', 'gopher.floodgap.com'])}\t{rng.choice(['70', '7070', ' 70 '])}")
+                lines.append(f"{t}{desc}\t{rng.choice(['/', '/x y', '', 'rel'])}\t{rng.choice(['example.org', 'gopher.floodgap.com', '(NULL)'])}\t{rng.choice(['70', '7070', ' 70 ', '0', '0'])}")
             elif form == 4:    # host only / port only / empty host
-                lines.append(f"{t}{desc}\t/{rng.choice(LOCAL)}\t{rng.choice(['', 'example.org'])}\t{rng.choice(['', '70'])}")
+                lines.append(f"{t}{desc}\t/{rng.choice(LOCAL)}\t{rng.choice(['', 'example.org'])}\t{rng.choice(['', '70'])}")     # (port 0 only with a host: 0 is no port)
             elif form == 5:    # URL:
                 lines.append(f"h{desc}\t{rng.choice(['URL:http://example.org/', 'URL:https://a.b/c?d=e', '/URL:http://x/', 'URL:mailto:admin@example.org', 'URL:news:comp.infosystems.gopher', 'URL:tel:+15550100'])}")
             elif rng.random() < 0.15:   # degenerate: no type character / neither description nor selector
